@@ -87,6 +87,31 @@ func nodeTy(n jv) int      { return int(n.arr[1].i) }
 var lastInfo fileInfo // the first save of the last history (distribution bookkeeping only)
 var distCounts = map[string]int{}
 
+const textCap = 12 << 10
+
+// textComparable: no number other than an int64 integer, no byte 0xE2 in any string (mirrors Schema.schema_plain)
+func textComparable(v jv) bool {
+	switch v.k {
+	case jNum, jBig:
+		return false
+	case jStr:
+		return !strings.Contains(v.s, "\xe2")
+	case jArr:
+		for _, x := range v.arr {
+			if !textComparable(x) {
+				return false
+			}
+		}
+	case jObj:
+		for i := range v.keys {
+			if strings.Contains(v.keys[i], "\xe2") || !textComparable(v.vals[i]) {
+				return false
+			}
+		}
+	}
+	return true
+}
+
 func run_count(k string) { distCounts[k]++ }
 
 // applyOps runs the ops; reads ("eval") are not part of what the model is told
@@ -116,7 +141,7 @@ func histCases(d histDesc) []hx.Case {
 	opsCoq, oks := applyOps(inst, d.Ops)
 	fail := func(msg, key string) []hx.Case {
 		c.GoFail, c.FailKey = msg, key
-		c.Coq = fmt.Sprintf("CHist false [%s] [%s] JNull JNull JNull [] false None None None [] 0 None",
+		c.Coq = fmt.Sprintf("CHist false [%s] [%s] JNull JNull JNull [] false None None None [] 0 None None",
 			strings.Join(opsCoq, ";\n  "), strings.Join(oks, ";"))
 		return []hx.Case{c}
 	}
@@ -179,11 +204,19 @@ func histCases(d histDesc) []hx.Case {
 		}
 		return "None"
 	}
+	// the bytes of the first save, for the exact comparison with the model's rendering: small files whose
+	// values avoid what the Coq printer delegates (floating-point texts, U+2028/2029)
+	text1 := "None"
+	if len(a.sv.bytes) <= textCap && textComparable(a.sv.info.tree) {
+		text1 = fmt.Sprintf("(Some (mkhdr %s %s %s, %s))", hx.CoqString(d.AppName), hx.CoqString(d.AppVersion),
+			hx.CoqString(d.AppDesc), hx.CoqString(string(a.sv.bytes)))
+		run_count("save-text-compared-with-model")
+	}
 	render := func(modulo bool, sumB, artB, f2 jv, d2, dApp, cont string) string {
-		return fmt.Sprintf("CHist %v\n [%s]\n [%s]\n %s\n %s\n %s\n [%s] %v\n %s\n %s\n %s\n [%s] %s\n %s",
+		return fmt.Sprintf("CHist %v\n [%s]\n [%s]\n %s\n %s\n %s\n [%s] %v\n %s\n %s\n %s\n [%s] %s\n %s\n %s",
 			modulo, strings.Join(opsCoq, ";\n  "), strings.Join(oks, ";"),
 			a.sum.Coq(), a.art.Coq(), a.sv.info.tree.Coq(), strings.Join(digs, ";"), ro.ok,
-			same(a.sum, sumB), same(a.art, artB), same(a.sv.info.tree, f2), d2, dApp, cont)
+			same(a.sum, sumB), same(a.art, artB), same(a.sv.info.tree, f2), d2, dApp, cont, text1)
 	}
 	// the continuation: the same further edits on the live and on the reloaded instance, then everything again
 	continuation := func() (string, string) {
